@@ -29,7 +29,7 @@ func runC14(a *A) {
 				continue
 			}
 			allInstrs(h, func(in ssa.Instruction) {
-				if c := callCommon(in); c != nil && c.IsInvoke() && c.Method.Name() == "Evaluate" {
+				if c := callCommon(in); isPredicateEvalCall(c) {
 					filterHelper[h] = true
 				}
 			})
@@ -46,11 +46,20 @@ func runC14(a *A) {
 		} {
 			env := &Env{a: a, Rank: map[string]int{}, Flags: map[string]bool{},
 				Assume: func(t *Term, v ssa.Value) Tri {
-					if c, ok := v.(*ssa.Call); ok && c.Call.IsInvoke() && c.Call.Method.Name() == "Evaluate" {
+					if predicateVerdict(v) {
 						return tri(cs.pass)
 					}
 					if c, ok := v.(*ssa.Call); ok && c.Call.StaticCallee() != nil && filterHelper[c.Call.StaticCallee()] {
 						return tri(cs.pass)
+					}
+					// a predicate that held was evaluated without error (the variant that reports the error returns
+					// false with it)
+					if x, nilWhenTrue, ok := nilTest(v); ok && cs.pass {
+						if ex, isEx := x.(*ssa.Extract); isEx && ex.Index == 1 {
+							if c, isCall := ex.Tuple.(*ssa.Call); isCall && isPredicateEvalCall(&c.Call) {
+								return tri(nilWhenTrue)
+							}
+						}
 					}
 					if bo, ok := v.(*ssa.BinOp); ok {
 						if (bo.Op == token.NEQ || bo.Op == token.EQL) && isFieldOf(TermOf(bo.X, nil), "stream.Stream", "filter") {
@@ -72,17 +81,16 @@ func runC14(a *A) {
 			w.RetIdx = -1
 			seq := map[*pstate]string{}
 			w.Target = func(in ssa.Instruction, w *Walker) bool {
+				// the sequence is carried in the path state itself (a fork copies it)
+				_ = seq
 				if staticCallee(in) == evalAn {
-					seq[w.cur] += "A"
-					w.Tag(seq[w.cur])
+					w.Tag(w.cur.tag + "A")
 				}
-				if c := callCommon(in); c != nil && c.IsInvoke() && c.Method.Name() == "Evaluate" {
-					seq[w.cur] += "F"
-					w.Tag(seq[w.cur])
+				if c := callCommon(in); isPredicateEvalCall(c) {
+					w.Tag(w.cur.tag + "F")
 				}
 				if callee := staticCallee(in); callee != nil && filterHelper[callee] {
-					seq[w.cur] += "F"
-					w.Tag(seq[w.cur])
+					w.Tag(w.cur.tag + "F")
 				}
 				return false
 			}
@@ -159,7 +167,7 @@ func runC14(a *A) {
 			}
 			n++
 			hit := reachUnder(fn, in, func(v ssa.Value) Tri {
-				if cc, ok := v.(*ssa.Call); ok && cc.Call.IsInvoke() && cc.Call.Method.Name() == "Evaluate" {
+				if predicateVerdict(v) {
 					return F
 				}
 				if bo, ok := v.(*ssa.BinOp); ok && (bo.Op == token.NEQ || bo.Op == token.EQL) && isFieldOf(TermOf(bo.X, nil), "stream.analyticFieldEngine", "whenCond") {
